@@ -69,7 +69,7 @@ func serverCatalogue(c *core.Ctx, kr *keyring) []sCase {
 		// an honest client draws 256 bytes; the server accepts any length up to 256,
 		// most scripted runs use a short nonce to keep the generated Coq terms small
 		n := 16
-		if strings.HasPrefix(name, "honest") || !c.Quick() {
+		if strings.HasPrefix(name, "honest") || (!c.Quick() && denseFamily(name) == "") {
 			n = 256
 		}
 		return sCase{Name: name, W: kr.w0, Sub: stdSub, Expect: 1, RA: ra(n),
@@ -80,7 +80,7 @@ func serverCatalogue(c *core.Ctx, kr *keyring) []sCase {
 		// dense bit-flip families: every case runs on the implementation with the direct
 		// oracle; in the quick tier only every 4th also becomes a Coq case
 		if fam := denseFamily(s.Name); fam != "" {
-			s.NoModel = c.Quick() && dense[fam]%4 != 0
+			s.NoModel = dense[fam]%boolInt(c.Quick(), 8, 2) != 0
 			dense[fam]++
 		}
 		out = append(out, s)
@@ -377,7 +377,7 @@ func clientCatalogue(c *core.Ctx, kr *keyring) []cCase {
 	}
 	base := func(name string) cCase {
 		n := 16 // the client accepts any server nonce up to 256 bytes; short ones keep the Coq terms small
-		if strings.HasPrefix(name, "honest") || !c.Quick() {
+		if strings.HasPrefix(name, "honest") || (!c.Quick() && denseFamily(name) == "") {
 			n = 256
 		}
 		return cCase{Name: name, Sub: stdSub, Expect: 1, RB: rb(n), SID: "server@pool.example",
@@ -386,7 +386,7 @@ func clientCatalogue(c *core.Ctx, kr *keyring) []cCase {
 	dense := map[string]int{}
 	add := func(s cCase) {
 		if fam := denseFamily(s.Name); fam != "" {
-			s.NoModel = c.Quick() && dense[fam]%4 != 0
+			s.NoModel = dense[fam]%boolInt(c.Quick(), 8, 2) != 0
 			dense[fam]++
 		}
 		out = append(out, s)
@@ -504,16 +504,29 @@ func gen(c *core.Ctx) error {
 	c.Assume("encoding/json and the JSON number -> float64 -> int64 conversion (amd64) are parameters of the model, supplied per case")
 	c.Assume("HKDF-SHA256 / HMAC-SHA256 / HMAC-SHA1 behave as the ideal functions of Lib/SymC11.v; their use (inputs, salts, order) is checked against an independent reference")
 	kr := newKeyring(c)
+	seenNonce := map[string]string{}
+	fresh := func(role, name string, nonce []byte) []string {
+		// the local nonce of every OK message must be new (256 random bytes)
+		if len(nonce) == 0 {
+			return nil
+		}
+		if prev, dup := seenNonce[string(nonce)]; dup {
+			return []string{"nonce-not-fresh (same as in " + prev + ")"}
+		}
+		seenNonce[string(nonce)] = role + "/" + name
+		return nil
+	}
 	for _, sc := range serverCatalogue(c, kr) {
 		sc := sc
 		r := runS(&sc, kr.evil)
+		r.fails = append(r.fails, fresh("server", sc.Name, r.rb)...)
 		doc := replayDoc{Role: "server", Evil: kr.evil, S: &sc}
 		if sc.NoModel {
 			c.Evaluated(1)
 			c.Count("server:oracle-only")
 		} else {
 			term := r.term()
-			c.AddCaseW(term, doc, 1+len(term)/1000)
+			c.AddCaseW(term, doc, 1+len(term)/600)
 		}
 		c.OracleCheck()
 		c.Count("server:" + strings.SplitN(sc.Name, "-", 2)[0])
@@ -536,13 +549,14 @@ func gen(c *core.Ctx) error {
 	for _, cc := range clientCatalogue(c, kr) {
 		cc := cc
 		r := runC(&cc, kr.evil)
+		r.fails = append(r.fails, fresh("client", cc.Name, r.ra)...)
 		doc := replayDoc{Role: "client", Evil: kr.evil, C: &cc}
 		if cc.NoModel {
 			c.Evaluated(1)
 			c.Count("client:oracle-only")
 		} else {
 			term := r.term()
-			c.AddCaseW(term, doc, 1+len(term)/1000)
+			c.AddCaseW(term, doc, 1+len(term)/600)
 		}
 		c.OracleCheck()
 		c.Count("client:" + strings.SplitN(cc.Name, "-", 2)[0])
